@@ -386,15 +386,27 @@ func (fx *FX) relevantAxioms() string {
 		text.WriteByte(' ')
 	}
 	body := text.String()
-	var out strings.Builder
-	for _, ax := range fx.axioms {
-		use := false
-		for _, f := range fx.eng.specs.Funs {
-			if strings.Contains(ax, "("+f.Name+" ") && (strings.Contains(body, "("+f.Name+" ") || strings.Contains(body, " "+f.Name+")")) {
-				use = true
+	// closure: an axiom selected for one of its functions makes the other functions it mentions relevant too
+	used := make([]bool, len(fx.axioms))
+	for changed := true; changed; {
+		changed = false
+		for i, ax := range fx.axioms {
+			if used[i] {
+				continue
+			}
+			for _, f := range fx.eng.specs.Funs {
+				if strings.Contains(ax, "("+f.Name+" ") && (strings.Contains(body, "("+f.Name+" ") || strings.Contains(body, " "+f.Name+")")) {
+					used[i] = true
+					changed = true
+					body += " " + ax
+					break
+				}
 			}
 		}
-		if use {
+	}
+	var out strings.Builder
+	for i, ax := range fx.axioms {
+		if used[i] {
 			fmt.Fprintf(&out, "(assert %s)\n", ax)
 		}
 	}
